@@ -40,8 +40,8 @@ package gtreap
 //@   ensures !held(w.s.m)
 //@   ensures implies(result != nil, w.s.t == old(w.s.t))
 //@   ensures w.s.t != nil
-//@   loop 0: invariant w.s != nil && held(w.s.m) && w.s.mo != nil && w.s.t != nil && w.s == old(w.s)
-//@   loop 1: invariant w.s != nil && held(w.s.m) && w.s.mo != nil && w.s.t != nil && w.s == old(w.s)
+//@   loop 0: invariant w.s != nil && held(w.s.m) && w.s.mo != nil && t != nil && w.s == old(w.s) && w.s.t == old(w.s.t)
+//@   loop 1: invariant w.s != nil && held(w.s.m) && w.s.mo != nil && t != nil && w.s == old(w.s) && w.s.t == old(w.s.t)
 
 // Reader: a snapshot of the treap taken under the lock.
 //@ func Store.Reader
